@@ -91,4 +91,53 @@ QSubB(p, q) == QAddB(p, [n |-> ZNeg(q.n), d |-> q.d])
 QMulB(p, q) == QMk(ZMul(p.n, q.n), NMul(p.d, q.d))
 QDivB(p, q) == QMk(ZMk(p.n.neg # q.n.neg, NMul(p.n.mag, q.d)), NMul(p.d, q.n.mag))      \* q # 0
 QCmpB(p, q) == ZCmp(ZMul(p.n, ZMk(FALSE, q.d)), ZMul(q.n, ZMk(FALSE, p.d)))
+\* ---- bit-vectors of any width as naturals below 2^w
+RECURSIVE NPow2(_)
+NPow2(k) == IF k = 0 THEN <<1>> ELSE NMulDigit(NPow2(k - 1), 2)
+NMod(a, m) == NDivMod(a, m)[2]
+NDiv(a, m) == NDivMod(a, m)[1]
+\* binary digits, least significant first, exactly w of them
+RECURSIVE Bits(_, _)
+Bits(a, w) == IF w = 0 THEN <<>> ELSE LET qr == NDivMod(a, <<2>>) IN <<(IF qr[2] = <<>> THEN 0 ELSE 1)>> \o Bits(qr[1], w - 1)
+RECURSIVE OfBits(_)
+OfBits(bs) == IF bs = <<>> THEN <<>> ELSE NAdd(NMulDigit(OfBits(Tail(bs)), 2), IF Head(bs) = 1 THEN <<1>> ELSE <<>>)
+BitWise(F(_, _), a, b, w) == LET x == Bits(a, w) y == Bits(b, w) IN OfBits([k \in 1..w |-> F(x[k], y[k])])
+BAnd(p, q) == IF p = 1 /\ q = 1 THEN 1 ELSE 0
+BOr(p, q) == IF p = 1 \/ q = 1 THEN 1 ELSE 0
+BXor(p, q) == IF p # q THEN 1 ELSE 0
+AllOnes(w) == NSub(NPow2(w), <<1>>)
+IsNegBV(a, w) == NCmp(a, NPow2(w - 1)) >= 0
+\* two's complement value as an integer, and back
+ToSigned(a, w) == IF IsNegBV(a, w) THEN ZMk(TRUE, NSub(NPow2(w), a)) ELSE ZMk(FALSE, a)
+OfSigned(z, w) == IF z.neg THEN NMod(NSub(NPow2(w), NMod(z.mag, NPow2(w))), NPow2(w)) ELSE NMod(z.mag, NPow2(w))
+\* truncated (round towards zero) signed division and remainder of SMT-LIB bvsdiv / bvsrem
+BVBin(op, a, b, w) ==
+    LET M == NPow2(w)
+        sh == IF NCmp(b, <<0, 0, 0, 1>>) >= 0 THEN 1000 ELSE            \* shift amounts >= 1000 clear everything
+              LET RECURSIVE ToNat(_) ToNat(d) == IF d = <<>> THEN 0 ELSE Head(d) + 10 * ToNat(Tail(d)) IN ToNat(b)
+    IN  CASE op = "bv_add" -> NMod(NAdd(a, b), M)
+          [] op = "bv_sub" -> NMod(NAdd(a, NSub(M, b)), M)
+          [] op = "bv_mul" -> NMod(NMul(a, b), M)
+          [] op = "bv_udiv" -> IF b = <<>> THEN AllOnes(w) ELSE NDiv(a, b)
+          [] op = "bv_urem" -> IF b = <<>> THEN a ELSE NMod(a, b)
+          [] op = "bv_and" -> BitWise(BAnd, a, b, w)
+          [] op = "bv_or" -> BitWise(BOr, a, b, w)
+          [] op = "bv_xor" -> BitWise(BXor, a, b, w)
+          [] op = "bv_lshl" -> IF sh >= w THEN <<>> ELSE NMod(NMul(a, NPow2(sh)), M)
+          [] op = "bv_lshr" -> IF sh >= w THEN <<>> ELSE NDiv(a, NPow2(sh))
+          [] op = "bv_ashr" -> IF ~IsNegBV(a, w) THEN (IF sh >= w THEN <<>> ELSE NDiv(a, NPow2(sh)))
+                               ELSE IF sh >= w THEN AllOnes(w)
+                               ELSE NAdd(NDiv(a, NPow2(sh)), NSub(M, NPow2(w - sh)))       \* the vacated bits are ones
+          [] op = "bv_sdiv" -> LET x == ToSigned(a, w) y == ToSigned(b, w)
+                               IN  IF b = <<>> THEN (IF x.neg THEN <<1>> ELSE AllOnes(w))
+                                   ELSE OfSigned(ZMk(x.neg # y.neg, NDiv(x.mag, y.mag)), w)
+          [] op = "bv_srem" -> LET x == ToSigned(a, w) y == ToSigned(b, w)
+                               IN  IF b = <<>> THEN a ELSE OfSigned(ZMk(x.neg, NMod(x.mag, y.mag)), w)
+\* comparisons: TRUE / FALSE
+BVRel(op, a, b, w) ==
+    CASE op = "bv_ult" -> NCmp(a, b) < 0 [] op = "bv_ule" -> NCmp(a, b) <= 0
+      [] op = "bv_slt" -> ZCmp(ToSigned(a, w), ToSigned(b, w)) < 0
+      [] op = "bv_sle" -> ZCmp(ToSigned(a, w), ToSigned(b, w)) <= 0
+      [] op = "equals" -> a = b
+BVUn(op, a, w) == CASE op = "bv_not" -> NSub(AllOnes(w), a) [] op = "bv_neg" -> NMod(NSub(NPow2(w), a), NPow2(w))
 =============================================================================
